@@ -406,12 +406,12 @@ example : intArg (.num (.int .u64 (2 ^ 63))) = errValue ∧
     intArg (.num (.jnum [0x39,0x32,0x32,0x33,0x33,0x37,0x32,0x30,0x33,0x36,0x38,0x35,0x34,0x37,0x37,0x35,0x38,0x30,0x38]))
       = errValue := by decide
 
-/-- **Counterexample (genuine representation dependence at one point).**  `float64(2^63)` and `uint64(2^63)` hold the
-    same value, but as an integer argument the float is accepted as `-2^63` (the model mirrors Go's float→int
-    conversion on amd64) while every other representation is rejected as "not an integer in range".
-    This is why `F64.Good` excludes `2^63`. -/
+/-- **Regression (FX27).**  `float64(2^63)` and `uint64(2^63)` hold the same value; before the repair the float was
+    accepted as an integer argument (as `-2^63`: Go's float→int conversion on amd64, undefined by the language) while
+    every other representation was rejected as "not an integer in range".  Now all representations are rejected.
+    (`F64.Good` still excludes `2^63`; the exclusion is no longer needed for `intArg`.) -/
 example : Num.SameValue (.f64 (.fin false 1 63)) (.int .u64 (2 ^ 63)) ∧
-    intArg (.num (.f64 (.fin false 1 63))) = .ok (-(2 ^ 63)) ∧ intArg (.num (.int .u64 (2 ^ 63))) = errValue :=
+    intArg (.num (.f64 (.fin false 1 63))) = errValue ∧ intArg (.num (.int .u64 (2 ^ 63))) = errValue :=
   ⟨⟨_, _, rfl, rfl, by decide⟩, by decide, by decide⟩
 
 /-! ## 2. representation lemmas: every Go kind holding the integer `v` converts to a decimal of value `v` -/
